@@ -81,6 +81,9 @@ class ProtocolMonitor(Monitor):
             return
         if st == 1:
             rep.count("mid_checked")
+            m = ev.O.get("action_mask")
+            if m is not None and not np.asarray(m).any():
+                rep.count("mid_with_empty_action_mask")  # dead-locked but still running
             if d.size and bool(np.all(d == 0)):
                 self._viol(ev, "mid_discount_not_all_zero", {"discount": d.tolist()})
         else:
@@ -118,6 +121,23 @@ def run_shard(shard: Dict[str, Any], rep: Report) -> None:
         if nm in extra:
             pols.extend([extra[nm]] * (1 if tier == "quick" else 3))
     cap = step_cap(shard["env"], shard["cfg"], tier)
+    # adversarial key search (workload only): where the model can score reset instances, the frontier workload (e.g. the MMST
+    # dead-lock) is played on the best of 64 keys
+    if P.has("key_score") and "frontier" in extra:
+        from jmon.common import decode
+
+        scored = []
+        for j in range(64 if tier == "quick" else 256):
+            k_, ki_ = key_for(seed, shard["id"] + "|search", j)
+            s_, _ = runner.reset(k_)
+            scored.append((P.call("key_score", decode(s_)), ki_, k_))
+        scored.sort(key=lambda x: -x[0])
+        for sc, ki_, k_ in scored[: (3 if tier == "quick" else 10)]:
+            if sc > 0:
+                info = run_episode(runner, k_, ki_, extra["frontier"], rng, [mon], episode=900, max_steps=cap + 4, post_terminal=4)
+                rep.states += info["steps"] + 1
+                rep.transitions += info["steps"]
+                rep.count("adversarial_key_episodes")
     caps = [cap] * len(pols)
     for pol, c in deep_episodes(shard["env"], shard["cfg"], tier, extra):
         pols.append(pol)
